@@ -182,6 +182,8 @@ func checkC13(c *Ctx) {
 	c.checkPublishedNotRecycled("O8 published-not-recycled")
 	c.checkBorrowedTagsReturnedOnce("O8 borrowed-returned-once")
 	c.checkConfiguredDestinations("O9 destinations")
+	// tags arrive as allocated: pooled tag slices never overlap (shared with C12 O7)
+	c.checkPooledSlicesDisjoint("O8 pooled-slices-disjoint")
 	c.checkClockRefresh("O5 clock-refresh")
 	c.checkNdigits("O7 bucket-identity-digits")
 	// the bucket tag value renders the open ends as in the StatsD reporter (shared table rule, C18 O2)
